@@ -43,6 +43,10 @@ def lines(tier):
             out.append('vh-argv %s%s%s c' % (q, inner, q))
     out += ['vh-argv a\\ #b c', 'vh-argv a\\ \\#b c', 'vh-argv "a # b" && vh-argv2 done', "vh-argv 'x #y' z > f1", 'vh-argv "p #q" | vh-io r', 'vh-argv a # b', 'vh-argv a #',
             '# only a comment', 'vh-argv a ; # c', 'vh-argv a ;# c', 'vh-argv "a" #"b', "V='a # b' ; vh-argv \"$V\"", 'vh-argv $(vh-emit 0) # c', '  vh-argv lead', 'vh-argv trail   ', '\tvh-argv tab']
+    # runs of blanks that are data, an escaped blank at the end of the line, escaped `$` / `|` as the last word,
+    # `!!` inside single quotes next to an escaped blank
+    out += ['vh-argv "a  b"', "vh-argv 'a   b' c", 'vh-argv a\\ \\ b', 'vh-argv x "  " y', 'vh-argv a\\ ', 'vh-argv x \\$HOME', 'vh-argv x \\|', 'vh-argv x \\$',
+            "vh-argv '!!' a\\ b", "vh-argv '!!'"]
     if tier == 'thorough':
         for t in itertools.product(c01.SIGMA, repeat=2):
             t = ''.join(t)
@@ -94,6 +98,8 @@ def run_line(line):
                     if not ses.start():
                         res[mode] = 'no-prompt'
                         continue
+                    # a session always has a previous command (history expansion of `!!` needs one to show)
+                    ses.line('vh-mark WARMUP 0', timeout=5.0)
                     ok = ses.line(line, timeout=10.0)
                     if ok:
                         ses.line('vh-mark PROMPTSTATUS 0 $?', timeout=5.0)
@@ -101,6 +107,8 @@ def run_line(line):
                     status = None
                     keep = []
                     for x in recs:
+                        if x.get('k') == 'mark' and x['argv'][:1] == ['WARMUP']:
+                            continue
                         if x.get('k') == 'mark' and x['argv'][:1] == ['PROMPTSTATUS']:
                             status = int(x['argv'][2]) if len(x['argv']) > 2 and x['argv'][2].isdigit() else None
                         else:
